@@ -307,16 +307,19 @@ yd_to_md(unsigned int y, int doy)
 static struct md_s
 ywd_to_md(unsigned int y, int w, echs_wday_t d)
 {
-	unsigned int yday = ywd_get_yday(y, w, d);
-	struct md_s res = yd_to_md(y, yday);
+	const int nwk = (int)get_isowk(y);
+	int yday;
 
-	if (UNLIKELY(res.m == 0)) {
-		res.m = 12;
-		res.d--;
-	} else if (UNLIKELY(res.m == 13)) {
-		res.m = 1;
+	if (UNLIKELY(!w || w > nwk || w < -nwk)) {
+		/* there's no such week in Y */
+		return (struct md_s){0U, 0U};
 	}
-	return res;
+	yday = (int)ywd_get_yday(y, w, d);
+	if (UNLIKELY(yday <= 0 || yday > 365 + !(y % 4U))) {
+		/* that day of week W belongs to the previous or next year */
+		return (struct md_s){0U, 0U};
+	}
+	return yd_to_md(y, yday);
 }
 
 static unsigned int
